@@ -894,6 +894,63 @@ class CodeGen:
         self.wrap_try(s, body)
         self.step({"kind": "snark_call", "desc": {"op": "snark_call"}})
 
+    # -- qaptools sub-circuits (C12) -----------------------------------------------------------
+    SUBQAP_RET = {0: 1, 1: 1, 2: 2, 3: 1}
+
+    def subqap_defs(self):
+        for k, f in enumerate(self.plan.get("subqaps", [])):
+            n = f["nargs"]
+            params = ", ".join("a%d" % i for i in range(n))
+            a0 = "a0"
+            a1 = "a1" if n > 1 else "a0"
+            self.emit("@subqap(%r)" % f["name"])
+            self.emit("def _sq%d(%s):" % (k, params))
+            self.ind += 1
+            t = f["tmpl"]
+            if t == 0:
+                self.emit("return %s * %s" % (a0, a1))
+            elif t == 1:
+                self.emit("t = %s * %s" % (a0, a0))
+                self.emit("return t + %s" % a1)
+            elif t == 2:
+                self.emit("return [%s * %s, %s + 1]" % (a0, a1, a0))
+            else:
+                inner = f.get("inner")
+                if inner is None or inner >= k:
+                    self.emit("return (%s + 1) * %s" % (a0, a1))
+                else:
+                    g = self.plan["subqaps"][inner]
+                    args = ", ".join([a0 + " * " + a1] + [a0] * (g["nargs"] - 1))
+                    self.emit("r = _sq%d(%s)" % (inner, args))
+                    self.emit("return (r[0] if isinstance(r, list) else r) + %s" % a0)
+            self.ind -= 1
+
+    def st_subqap_call(self, s):
+        fns = self.plan.get("subqaps", [])
+        k = s["fn"] % len(fns)
+        f = fns[k]
+        args = ", ".join(self.var("I", a["ref"]) for a in s["args"][:f["nargs"]])
+        fb = self.var("I", 0)
+        nm = self.new_var("I")
+        self.origin[nm] = {"op": "subqap_call"}
+        def body():
+            self.emit("_r = _sq%d(%s)" % (k, args))
+            self.emit("%s = _r[0] if isinstance(_r, list) else _r" % nm)
+        self.wrap_try(s, body, "%s = %s" % (nm, fb))
+        self.step({"kind": "subqap_call", "desc": {"op": "subqap_call"}})
+
+    def st_exportcomm(self, s):
+        vals = ", ".join(self.var("I", a["ref"]) for a in s["vals"])
+        self.wrap_try(s, lambda: self.emit("exportcomm([%s], %r)" % (vals, s["name"])))
+        self.step({"kind": "exportcomm", "desc": {"op": "exportcomm"}})
+
+    def st_importcomm(self, s):
+        nm = self.new_var("I")
+        fb = self.var("I", 0)
+        self.origin[nm] = {"op": "importcomm"}
+        self.wrap_try(s, lambda: self.emit("%s = importcomm(%r)[0]" % (nm, s["name"])), "%s = %s" % (nm, fb))
+        self.step({"kind": "importcomm", "desc": {"op": "importcomm"}})
+
     def schema_src(self, sc):
         k = sc[0]
         if k == "bool":
@@ -928,6 +985,8 @@ class CodeGen:
     def generate(self):
         if self.plan.get("blocks") and self.mode != "native":
             self.emit("_ = BranchingValues()")
+        if self.plan.get("subqaps"):
+            self.subqap_defs()
         for i, inp in enumerate(self.plan["inputs"]):
             t = inp["t"]
             nm = self.new_var(t)
